@@ -344,6 +344,143 @@ theorem closeTrace_live {s : State} (hI : Inv s) {c d : Nat} {j : Json} {b : Boo
         exact ⟨findFetch_peer_mem hf, (mem_unsub_fetchers hsl).2⟩
       · cases hsl2
 
+/-- the entries of `closeTrace` carry no send results -/
+theorem closeTrace_stripped (s : State) (c : Nat) : ∀ o ∈ closeTrace s c, strip o = o := by
+  intro o h
+  unfold closeTrace at h
+  split at h
+  · cases h
+  · simp only [List.mem_append, List.mem_flatMap, List.mem_map] at h
+    rcases h with (⟨r, _, hr2⟩ | ⟨r, _, hr2⟩) | ⟨e, _, he⟩
+    · unfold routeActs at hr2
+      simp only [List.mem_cons] at hr2
+      rcases hr2 with hr2 | hr2
+      · subst hr2; rfl
+      · split at hr2
+        · cases hr2
+        · split at hr2
+          · cases hr2
+          · split at hr2
+            · simp only [List.mem_singleton] at hr2
+              subst hr2; rfl
+            · cases hr2
+    · subst hr2; rfl
+    · unfold notifyActs at he
+      simp only [List.mem_filterMap] at he
+      obtain ⟨sl, _, hsl2⟩ := he
+      split at hsl2
+      · simp only [Option.map_eq_some_iff] at hsl2
+        obtain ⟨f, _, hf2⟩ := hsl2
+        subst hf2; rfl
+      · cases hsl2
+
+theorem closeTrace_strip (s : State) (c : Nat) : (closeTrace s c).map strip = closeTrace s c := by
+  conv => rhs; rw [← List.map_id (closeTrace s c)]
+  apply List.map_congr_left
+  intro o ho
+  exact closeTrace_stripped s c o ho
+
+/-- post-state and outputs of a closing step -/
+theorem Closes.st_eq {cfg : Config} {s : State} {op : Op} {c : Nat} {x : Ctx} (hI : Inv s)
+    (hx : Closes cfg s op c x) : (step cfg s op).1 = afterClose x.st c := by
+  obtain ⟨p, hp⟩ := hx.findPeer hI
+  rw [hx.step_eq, closePeer_eq (hx.inv hI) hp]; rfl
+
+theorem Closes.out_eq {cfg : Config} {s : State} {op : Op} {c : Nat} {x : Ctx} (hI : Inv s)
+    (hx : Closes cfg s op c x) {p : Peer} (hp : Daemon.findPeer x.st.peers c = some p) :
+    (step cfg s op).2.map strip =
+      x.out.reverse.map strip ++
+      (p.routes.flatMap (routeActs c) ++
+       ((x.st.peers.filter (·.conn != c)).flatMap (fun q => q.routes.filter (·.requester == c))).map
+         (fun r => Obs.timerDestroy r.timer) ++
+       p.elements.flatMap (fun e => notifyActs x.st.peers (unsub c e) "remove")) ++
+      [Obs.closed c] := by
+  rw [hx.step_eq]
+  show (closePeer x c).out.reverse.map strip = _
+  rw [closePeer_out (hx.inv hI) hp, closeTrace_strip]
+  unfold closeTrace; rw [hp]
+
+/-- the raw outputs of a replay: a block in front of the old outputs whose erasure is the replayed list -/
+theorem play_out_raw (x : Ctx) (t : List Obs) :
+    ∃ D, (play x t).out = D ++ x.out ∧ D.map strip = (t.map strip).reverse := by
+  induction t generalizing x with
+  | nil => exact ⟨[], rfl, rfl⟩
+  | cons o t ih =>
+    rw [play_cons]
+    obtain ⟨D, hD, hDs⟩ := ih (match o with | .send c j _ => send' x c j | o => emit x o)
+    cases o with
+    | send c j b =>
+      obtain ⟨b', hb'⟩ := send'_out x c j
+      refine ⟨D ++ [Obs.send c j b'], ?_, ?_⟩
+      · rw [hD]; simp only [hb', List.append_assoc, List.singleton_append]
+      · simp [hDs, strip]
+    | closed c =>
+      refine ⟨D ++ [Obs.closed c], ?_, ?_⟩
+      · rw [hD]; simp
+      · simp [hDs, strip]
+    | timerArm a b =>
+      refine ⟨D ++ [Obs.timerArm a b], ?_, ?_⟩
+      · rw [hD]; simp
+      · simp [hDs, strip]
+    | timerDestroy a =>
+      refine ⟨D ++ [Obs.timerDestroy a], ?_, ?_⟩
+      · rw [hD]; simp
+      · simp [hDs, strip]
+
+/-- the outputs of a closing step: the accepted part of the message, then a tail that never
+    addresses the leaving peer -/
+theorem Closes.tail {cfg : Config} {s : State} {op : Op} {c : Nat} {x : Ctx} (hI : Inv s)
+    (hx : Closes cfg s op c x) :
+    ∃ tail, (step cfg s op).2 = x.out.reverse ++ tail ∧
+      ∀ d j ok, Obs.send d j ok ∈ tail → d ∈ C05.conns s.peers ∧ d ≠ c := by
+  obtain ⟨p, hp⟩ := hx.findPeer hI
+  obtain ⟨D, hD, hDs⟩ := play_out_raw x (closeTrace x.st c)
+  refine ⟨D.reverse ++ [Obs.closed c], ?_, ?_⟩
+  · rw [hx.step_eq, closePeer_eq (hx.inv hI) hp]
+    simp only [emit_out, List.reverse_cons, hD, List.reverse_append, List.append_assoc]
+  · intro d j ok hm
+    simp only [List.mem_append, List.mem_reverse, List.mem_singleton] at hm
+    rcases hm with hm | hm
+    · have h1 := mem_strip_send hm
+      rw [hDs, closeTrace_strip, List.mem_reverse] at h1
+      have := closeTrace_live (hx.inv hI) h1
+      rw [hx.conns hI] at this
+      exact this
+    · cases hm
+
+theorem findFetch_of_mem_fetchKeys {ps : List Peer} (hn : (conns ps).Nodup) {fk : FetchKey}
+    (h : fk ∈ fetchKeys ps) : ∃ f, findFetch ps fk = some f := by
+  obtain ⟨q, hq, hqc, f0, hf0, hu⟩ := mem_fetchKeys.1 h
+  unfold findFetch
+  rw [← hqc, findPeer_of_mem hn hq]
+  simp only
+  have : (q.fetches.find? (·.uid == fk.uid)).isSome = true := by
+    rw [List.find?_isSome]
+    exact ⟨f0, hf0, by simpa using hu⟩
+  cases hfi : q.fetches.find? (·.uid == fk.uid) with
+  | none => rw [hfi] at this; cases this
+  | some f => exact ⟨f, rfl⟩
+
+/-- the "remove" notifications of an element of the leaving peer, slot by slot -/
+theorem notifyActs_unsub (ps : List Peer) (c : Nat) (e : Element) (ev : String) :
+    notifyActs ps (unsub c e) ev =
+      e.fetchers.filterMap (fun sl => match sl with
+        | some fk => if fk.peer == c then none
+                     else (findFetch ps fk).map (fun f => Obs.send fk.peer (notification e f.fid ev) true)
+        | none => none) := by
+  unfold notifyActs unsub
+  simp only [List.filterMap_map]
+  apply filterMap_congr'
+  intro sl _
+  cases sl with
+  | none => rfl
+  | some fk =>
+    simp only [Function.comp]
+    by_cases hc : (fk.peer == c) = true
+    · simp [hc]
+    · simp only [hc, Bool.false_eq_true, if_false]
+      rfl
+
 /-! ## one step -/
 
 theorem step_inv {cfg : Config} {s : State} (hI : Inv s) (op : Op) : Inv (step cfg s op).1 := by
